@@ -186,6 +186,7 @@ pub fn meta(args: &Args) -> Value {
         "floor": {"quick": 20, "thorough": 800},
         "case_timeout_s": 60,
         "hang_is_violation": false,
+        "crash_is_violation": false,
         "budget": args.cases(120, 4000),
     })
 }
